@@ -133,8 +133,8 @@ def _line(c, m):
     if family.startswith('gmm-'):
         hd = _header(F, K, N, D, 1, c['wca'], sal)
         g = m.gaussian
-        return f'gmm-{"sph" if family == "gmm-spherical" else "diag"} {hd} {fbits(y)} {fbits(w)} {fbits(g.mean)} ' \
-               f'{fbits(g.covariance)}'
+        op = {'gmm-spherical': 'gmm-sph', 'gmm-diagonal': 'gmm-diag', 'gmm-full': 'gmm-full'}[family]
+        return f'{op} {hd} {fbits(y)} {fbits(w)} {fbits(g.mean)} {fbits(g.covariance)}'
     z = eu.unit(y)
     if family == 'cwmm':
         hd = _header(1, K, N, D, 1, c['wca'], sal)
@@ -155,6 +155,8 @@ def _compare(ctx, c, m, m_next, out):
     tag = f'{family} K={K} D={D} N={N} F={F} wca={c["wca"]} saliency={c["saliency"]} i={c["i"]}'
 
     def rep(op, ok, detail):
+        if not ok and not any(c is d for d in _DISAGREE):
+            _DISAGREE.append(c)
         ctx.corr(f'{op}[{family}]', ok, f'{tag}: {detail}', {k: v for k, v in c.items() if k in ('y', 'init', 'opts', 'i')})
     # log-likelihood of iterate i: model logLik (plain formula), logLikMethod (logsumexp form) vs independent value
     L = eu.mixture_ll(fam.log_pdf(m, data), fam.weight(m), sal)
@@ -203,9 +205,12 @@ def _compare(ctx, c, m, m_next, out):
         rep('mstep-covariance', ok, d)
 
 
+_DISAGREE = []          # correspondence cases on which model and code differ: the search starts from them
+
+
 def corr(ctx):
     rng = ctx.rng
-    fams = ['gmm-spherical', 'gmm-diagonal', 'cwmm', 'cacgmm']
+    fams = ['gmm-spherical', 'gmm-diagonal', 'cwmm', 'cacgmm', 'gmm-full']
     n = ctx.n(80, 1500)
     cases, lines, models = [], [], []
     for j in range(n):
@@ -344,7 +349,7 @@ def log_likelihood_method(y, init, opts, iterations):
 # ----------------------------------------------------------------------------- generators
 WCA_PLAIN = [(-1,), (-1,), -2, (-3,), (-3, -1)]
 WCA_INTEGRATION = [(-1,), (-3,), (-3, -1), (-3, -2, -1)]
-SALIENCY = ['none', 'none', 'constant', 'random', 'integer', 'with-zeros']
+SALIENCY = ['none', 'none', 'constant', 'random', 'integer', 'with-zeros', 'slice-scaled']
 FAMILY_STREAM = ['cacgmm', 'cwmm', 'gmm-full', 'gmm-diagonal', 'gmm-spherical', 'gcacgmm-spherical',
                  'cacgmm', 'gmm-full', 'gcacgmm-diagonal', 'cwmm', 'gcacgmm-full']
 
@@ -382,6 +387,13 @@ def gen_case(rng, family, max_iter, small=False):
 def search(ctx):
     rng = ctx.rng
     max_iter = 12 if ctx.tier == 'quick' else 50
+    # failing-input search aimed at the disagreeing operation: long trajectories from the very configurations on which
+    # the model's step and the code's step differ
+    for c in _DISAGREE[:12]:
+        if ctx.out_of_time(60):
+            break
+        ctx.count('search-from-correspondence-disagreement')
+        ctx.run(em_monotone, family=c['family'], y=c['y'], e=None, init=c['init'], opts=c['opts'], iterations=40)
     n = ctx.n(66, 1000)
     for i in range(n):
         if ctx.out_of_time(20):
